@@ -330,6 +330,24 @@ func runClone(w *bufio.Writer, seed int64, n int) {
 			} else if gjson(r3) != want {
 				fmt.Fprintf(w, "! C14 cfg(cache=%v async=%v): the cached value differs from the round trip through the file: file %s cached %s\n", s.Cache, ci&2 == 2, gjson(r3), want)
 			}
+			// the FIRST read of a handle with a cold cache: what it returns must not be the cached entry
+			if r3 != nil && err == nil {
+				mutateAll(r3.(*shape.Graph))
+				r4, err4 := db2.GetByUUID(&shape.Graph{}, g.UUID())
+				if err4 != nil {
+					fmt.Fprintf(w, "! C14 second get from a second handle: %v\n", err4)
+				} else if gjson(r4) != want {
+					fmt.Fprintf(w, "! C14 cfg(cache=%v async=%v): mutating the object returned by the first (cache-miss) read of a fresh handle changed what its next read returns: got %s want %s\n", s.Cache, ci&2 == 2, gjson(r4), want)
+				}
+				a2, _ := db2.All(&shape.Graph{})
+				for _, o := range a2 {
+					mutateAll(o.(*shape.Graph))
+				}
+				if r5, err5 := db2.GetByUUID(&shape.Graph{}, g.UUID()); err5 == nil && gjson(r5) != want {
+					fmt.Fprintf(w, "! C14 cfg(cache=%v async=%v): mutating objects returned by All on a fresh handle changed what a read returns\n", s.Cache, ci&2 == 2)
+				}
+			}
+			db2.Close()
 			fmt.Fprintf(w, "probe ok\n")
 		}
 		db.Close()
